@@ -189,32 +189,32 @@ Qed.
 Section Colour.
   Variable c : col.
   Variable a : nat.
-  Hypothesis a_pos : a <> 0.
 
   Lemma good_alloc : forall h o,
     good c a h -> Forall (vok (length h) c a) (obj_vals o) -> Forall (fld_ok (length h) c) (obj_flds o) ->
+    (a = 0 -> is_cfg o = false) ->
     good c a (h ++ [o]).
   Proof.
-    intros h o [HI HF] Hv Hf. assert (Hlen : length (h ++ [o]) = S (length h)) by (rewrite app_length; simpl; lia).
+    intros h o [HI HF] Hv Hf Hcf. assert (Hlen : length (h ++ [o]) = S (length h)) by (rewrite app_length; simpl; lia).
     split.
     - intros l o' Hl. rewrite Hlen. destruct (lookup_app_inv _ _ _ _ Hl) as [[Hlt Hl']|[-> ->]].
       + eapply obj_ok_mono; [|apply HI; eassumption]. lia.
       + unfold obj_ok. rewrite (HF (length h)) by lia. repeat split.
         * eapply Forall_vok_mono; [|eassumption]. lia.
         * eapply Forall_impl; [|eassumption]. intros. eapply fld_ok_mono; [|eassumption]. lia.
-        * intros. contradiction.
+        * assumption.
     - intros l Hl. apply HF. rewrite Hlen in Hl. lia.
   Qed.
 
   Lemma good_upd : forall h l o,
     good c a h -> l < length h -> c l = a ->
     Forall (vok (length h) c a) (obj_vals o) -> Forall (fld_ok (length h) c) (obj_flds o) ->
+    (a = 0 -> is_cfg o = false) ->
     good c a (upd h l o).
   Proof.
-    intros h l o [HI HF] Hl Hc Hv Hf. split.
+    intros h l o [HI HF] Hl Hc Hv Hf Hcf. split.
     - intros l' o' Hl'. rewrite length_upd. destruct (Nat.eq_dec l' l) as [->|Hne].
       + rewrite lookup_upd_same in Hl' by assumption. inversion Hl'; subst o'. unfold obj_ok. rewrite Hc. repeat split; auto.
-        intros. contradiction.
       + rewrite lookup_upd_other in Hl' by assumption. apply HI. assumption.
     - intros l' Hl'. rewrite length_upd in Hl'. apply HF. assumption.
   Qed.
@@ -335,6 +335,8 @@ Section Colour.
       + inversion Hr; subst h' v'. split; [apply ext_refl|]. split; [assumption|]. simpl. split; [assumption|].
         destruct Hc as [Hc|Hc]; [|assumption]. specialize (Hcfg Hc). discriminate.
   Qed.
+
+  Hypothesis a_pos : a <> 0.
 
   (* ---- inst: defaults, validation, proxies, sub-configurations ---- *)
   Definition arg_ok (N : nat) (arg : option val) : Prop :=
@@ -539,7 +541,7 @@ Section Colour.
                         h h1 es' Hgood ltac:(lia) ltac:(rewrite Forall_map in Hitems; exact Hitems) Em) as (E1 & G1 & P1) end.
             unfold alloc in Hr. inversion Hr; subst h' v'; clear Hr. pose proof (ext_length _ _ E1) as L1.
             split; [eapply ext_trans; [eassumption|apply ext_alloc]|]. split.
-            * apply good_alloc; simpl; [assumption|rewrite Forall_map; assumption|].
+            * apply good_alloc; simpl; [assumption|rewrite Forall_map; assumption| |auto].
               constructor; [|constructor]. eapply fld_ok_mono; [|apply (Hit fv eq_refl)]. assumption.
             * simpl. rewrite app_length. simpl. split; [lia|]. apply (good_ext_len _ G1). lia.
           + inversion Hr; subst. split; [apply ext_refl|]. split; [assumption|]. simpl. auto. }
@@ -586,11 +588,11 @@ Section Colour.
         destruct (filter (fun kv : str * val => negb (has_field (fst kv) fs)) (str_entries es)) as [|e0 er] eqn:Ex.
         - unfold alloc in Hr. inversion Hr; subst h' v'; clear Hr.
           split; [eapply ext_trans; [eassumption|apply ext_alloc]|]. split.
-          + apply good_alloc; simpl; auto. rewrite Forall_map. assumption.
+          + apply good_alloc; simpl; auto; try (intro; contradiction). rewrite Forall_map. assumption.
           + simpl. rewrite app_length. simpl. split; [lia|]. apply (good_ext_len _ G1). lia.
         - destruct dyn; [|discriminate]. unfold alloc in Hr. inversion Hr; subst h' v'; clear Hr.
           split; [eapply ext_trans; [eassumption|apply ext_alloc]|]. split.
-          + apply good_alloc; simpl; auto. rewrite map_app. apply Forall_app. split; [rewrite Forall_map; assumption|assumption].
+          + apply good_alloc; simpl; auto; try (intro; contradiction). rewrite map_app. apply Forall_app. split; [rewrite Forall_map; assumption|assumption].
           + simpl. rewrite app_length. simpl. split; [lia|]. apply (good_ext_len _ G1). lia. }
       intros h' v' Hr. rewrite inst_sub_eq in Hr. destruct arg as [[p|l]|].
       + discriminate.
@@ -599,5 +601,194 @@ Section Colour.
         * apply (Hbuild es); [|assumption]. destruct (proj1 Hgood l _ El) as (Hitems & _ & _). simpl in Hitems. rewrite Hc in Hitems. assumption.
         * inversion Hr; subst. split; [apply ext_refl|]. split; [assumption|]. simpl. auto.
       + apply (Hbuild []); [constructor|assumption].
+  Qed.
+
+  (* ---- operations on one configuration ---- *)
+  Lemma nav_spec : forall p h v v', good c a h -> vok (length h) c a v -> nav h v p = Some v' -> vok (length h) c a v'.
+  Proof.
+    induction p as [|s r IH]; intros h v v' Hg Hv Hn; simpl in Hn.
+    - inversion Hn; subst; assumption.
+    - destruct v as [pv|l]; [discriminate|]. destruct (lookup h l) as [o|] eqn:El; [|discriminate].
+      destruct (proj1 Hg l o El) as (Hvals & _ & _). destruct Hv as [Hl Hc]. rewrite Hc in Hvals.
+      rewrite Forall_forall in Hvals.
+      destruct o as [it items|items|vf es|f data dynl]; destruct s as [k|i|k]; try discriminate; simpl in Hvals.
+      + destruct (nth_error items i) as [x|] eqn:En; [|discriminate]. eapply IH; eauto. apply Hvals. eapply nth_error_In; eauto.
+      + destruct (nth_error items i) as [x|] eqn:En; [|discriminate]. eapply IH; eauto. apply Hvals. eapply nth_error_In; eauto.
+      + destruct (assoc pyval_eqb k es) as [x|] eqn:Ea; [|discriminate]. eapply IH; eauto. apply Hvals.
+        destruct (assoc_in _ _ _ _ Ea) as [k' Hin]. apply in_map_iff. exists (k', x). auto.
+      + destruct (assoc str_eqb k data) as [x|] eqn:Ea; [|discriminate]. eapply IH; eauto. apply Hvals.
+        destruct (assoc_in _ _ _ _ Ea) as [k' Hin]. apply in_map_iff. exists (k', x). auto.
+  Qed.
+
+  Lemma sub_field_ok : forall N dyn fs k fk, fld_ok N c (FSub dyn fs) -> assoc str_eqb k fs = Some fk -> fld_ok N c fk.
+  Proof.
+    intros N dyn fs k fk Hf Ha. inversion Hf as [| | |? ? Hfs]; subst. destruct (assoc_in _ _ _ _ Ha) as [k' Hin].
+    rewrite Forall_forall in Hfs. apply (Hfs (k', fk) Hin).
+  Qed.
+
+  Definition step_ok (h h' : heap) : Prop := good c a h' /\ frame a c h h'.
+
+  Lemma step_ok_refl : forall h, good c a h -> step_ok h h.
+  Proof. intros. split; [assumption|apply frame_refl]. Qed.
+
+  Lemma set_field_spec : forall d h cl k v, good c a h -> cl < length h -> c cl = a -> vok (length h) c a v ->
+    step_ok h (fst (set_field true d h cl k v)).
+  Proof.
+    intros d h cl k v Hg Hl Hc Hv. unfold set_field.
+    destruct (lookup h cl) as [o|] eqn:El; [|apply step_ok_refl; assumption].
+    destruct (proj1 Hg cl o El) as (Hvals & Hflds & _). rewrite Hc in Hvals.
+    destruct o as [it items|items|vf es|f data dynl]; try (apply step_ok_refl; assumption).
+    simpl in Hvals, Hflds. inversion Hflds as [|? ? Hf _]; subst.
+    destruct f as [df|it df|vf df|dyn fs]; try (apply step_ok_refl; assumption).
+    destruct (assoc str_eqb k fs) as [fk|] eqn:Ea.
+    - destruct (inst true d fk h (Some v)) as [[h1 v1]|] eqn:Ei; [|apply step_ok_refl; assumption].
+      destruct (inst_spec d fk h (Some v) Hg (sub_field_ok _ _ _ _ _ Hf Ea) Hv h1 v1 Ei) as (E1 & G1 & V1).
+      pose proof (ext_length _ _ E1) as L1. simpl. split.
+      + apply good_upd; simpl; auto; try lia; try (intro; contradiction).
+        * apply assoc_set_vals; [assumption|]. eapply Forall_vok_mono; eauto.
+        * constructor; [|constructor]. eapply fld_ok_mono; eauto.
+      + eapply frame_trans; [apply ext_frame; eassumption|apply frame_upd; assumption].
+    - destruct (mem_str k dynl); [|destruct dyn]; simpl; try (apply step_ok_refl; assumption).
+      + split; [|apply frame_upd; assumption].
+        apply good_upd; simpl; auto; try (intro; contradiction). apply assoc_set_vals; assumption.
+      + split; [|apply frame_upd; assumption].
+        apply good_upd; simpl; auto; try (intro; contradiction). apply assoc_set_vals; assumption.
+  Qed.
+
+  Lemma step_ok_trans : forall h1 h2 h3, step_ok h1 h2 -> step_ok h2 h3 -> step_ok h1 h3.
+  Proof. intros h1 h2 h3 [G1 F1] [G2 F2]. split; [assumption|eapply frame_trans; eauto]. Qed.
+
+  Lemma load_entries_spec : forall d cl es h, good c a h -> cl < length h -> c cl = a ->
+    Forall (vok (length h) c a) (map snd es) -> step_ok h (load_entries true d h cl es).
+  Proof.
+    intros d cl. induction es as [|[k v] r IH]; intros h Hg Hl Hc Hes; simpl.
+    - apply step_ok_refl; assumption.
+    - inversion Hes as [|? ? Hv Hr]; subst.
+      pose proof (set_field_spec d h cl k v Hg Hl Hc Hv) as Hs.
+      destruct (set_field true d h cl k v) as [h1 b]. simpl in Hs. destruct b; [|assumption].
+      eapply step_ok_trans; [eassumption|]. destruct Hs as [G1 [L1 _]].
+      apply IH; auto; try lia. eapply Forall_vok_mono; eauto.
+  Qed.
+
+  Lemma reset_field_spec : forall d h cl k, good c a h -> cl < length h -> c cl = a ->
+    step_ok h (reset_field true d h cl k).
+  Proof.
+    intros d h cl k Hg Hl Hc. unfold reset_field.
+    destruct (lookup h cl) as [o|] eqn:El; [|apply step_ok_refl; assumption].
+    destruct (proj1 Hg cl o El) as (Hvals & Hflds & _). rewrite Hc in Hvals.
+    destruct o as [it items|items|vf es|f data dynl]; try (apply step_ok_refl; assumption).
+    simpl in Hvals, Hflds. inversion Hflds as [|? ? Hf _]; subst.
+    destruct f as [df|it df|vf df|dyn fs]; try (apply step_ok_refl; assumption).
+    destruct (assoc str_eqb k fs) as [fk|] eqn:Ea.
+    - destruct (inst true d fk h None) as [[h1 v1]|] eqn:Ei; [|apply step_ok_refl; assumption].
+      destruct (inst_spec d fk h None Hg (sub_field_ok _ _ _ _ _ Hf Ea) I h1 v1 Ei) as (E1 & G1 & V1).
+      pose proof (ext_length _ _ E1) as L1. split.
+      + apply good_upd; simpl; auto; try lia; try (intro; contradiction).
+        * apply assoc_set_vals; [assumption|]. eapply Forall_vok_mono; eauto.
+        * constructor; [|constructor]. eapply fld_ok_mono; eauto.
+      + eapply frame_trans; [apply ext_frame; eassumption|apply frame_upd; assumption].
+    - destruct (mem_str k dynl); try (apply step_ok_refl; assumption).
+      split; [|apply frame_upd; assumption].
+      apply good_upd; simpl; auto; try (intro; contradiction). apply assoc_set_vals; [exact I|assumption].
+  Qed.
+
+  Lemma item_val_spec : forall d it h v, good c a h -> (forall fi, it = Some fi -> fld_ok (length h) c fi) ->
+    vok (length h) c a v -> aspec h (item_val true d it h v).
+  Proof.
+    intros d it h v Hg Hit Hv h' v' Hr. unfold item_val in Hr. destruct it as [fi|].
+    - eapply (inst_spec d fi h (Some v)); eauto.
+    - inversion Hr; subst. split; [apply ext_refl|]. split; assumption.
+  Qed.
+
+  Lemma set_nth_forall : forall {A : Type} (P : A -> Prop) i x l, P x -> Forall P l -> Forall P (set_nth i x l).
+  Proof.
+    intros A P i x l Hx. revert i. induction l as [|y r IH]; intros [|i] H; simpl; auto; inversion H; subst; constructor; auto.
+  Qed.
+
+  Lemma step_spec : forall d h root o, good c a h -> root < length h -> c root = a ->
+    step_ok h (step true d h root o).
+  Proof.
+    intros d h root o Hg Hl Hc.
+    assert (Hroot : forall h1, ext h h1 -> vok (length h1) c a (VRef root)).
+    { intros h1 E. simpl. split; [|assumption]. pose proof (ext_length _ _ E). lia. }
+    destruct o as [p k t|p t|p k|p t|p i t|p k t]; simpl.
+    - (* OpSet *)
+      destruct (alloc_tree t h) as [[h1 v]|] eqn:Et; [|apply step_ok_refl; assumption].
+      destruct (alloc_tree_spec t h Hg h1 v Et) as (E1 & G1 & V1).
+      assert (S1 : step_ok h h1) by (split; [assumption|apply ext_frame; assumption]).
+      destruct (nav h1 (VRef root) p) as [[pv|cl]|] eqn:En; try assumption.
+      destruct (nav_spec p h1 _ _ G1 (Hroot h1 E1) En) as [Hcl Hcc].
+      eapply step_ok_trans; [exact S1|]. apply set_field_spec; assumption.
+    - (* OpLoad *)
+      destruct (alloc_tree t h) as [[h1 v]|] eqn:Et; [|apply step_ok_refl; assumption].
+      destruct (alloc_tree_spec t h Hg h1 v Et) as (E1 & G1 & V1).
+      assert (S1 : step_ok h h1) by (split; [assumption|apply ext_frame; assumption]).
+      destruct v as [pv|tl]; [assumption|].
+      destruct (nav h1 (VRef root) p) as [[pv|cl]|] eqn:En; try assumption.
+      destruct (lookup h1 tl) as [o|] eqn:El; [|assumption].
+      destruct o as [it items|items|vf es|f data dynl]; try assumption.
+      destruct (nav_spec p h1 _ _ G1 (Hroot h1 E1) En) as [Hcl Hcc].
+      eapply step_ok_trans; [exact S1|]. apply load_entries_spec; try assumption.
+      apply str_entries_vals. destruct (proj1 G1 tl _ El) as (Hvals & _ & _). simpl in Hvals, V1.
+      destruct V1 as [_ Hct]. rewrite Hct in Hvals. assumption.
+    - (* OpReset *)
+      destruct (nav h (VRef root) p) as [[pv|cl]|] eqn:En; try (apply step_ok_refl; assumption).
+      destruct (nav_spec p h _ _ Hg (Hroot h (ext_refl h)) En) as [Hcl Hcc].
+      apply reset_field_spec; assumption.
+    - (* OpAppend *)
+      destruct (alloc_tree t h) as [[h1 v]|] eqn:Et; [|apply step_ok_refl; assumption].
+      destruct (alloc_tree_spec t h Hg h1 v Et) as (E1 & G1 & V1).
+      assert (S1 : step_ok h h1) by (split; [assumption|apply ext_frame; assumption]).
+      destruct (nav h1 (VRef root) p) as [[pv|ll]|] eqn:En; try assumption.
+      destruct (nav_spec p h1 _ _ G1 (Hroot h1 E1) En) as [Hcl Hcc].
+      destruct (lookup h1 ll) as [o|] eqn:El; [|assumption].
+      destruct o as [it items|items|vf es|f data dynl]; try assumption.
+      destruct (proj1 G1 ll _ El) as (Hvals & Hflds & _). rewrite Hcc in Hvals. simpl in Hvals, Hflds.
+      assert (Hit : forall fi, it = Some fi -> fld_ok (length h1) c fi).
+      { intros fi ->. inversion Hflds; assumption. }
+      destruct (item_val true d it h1 v) as [[h2 v2]|] eqn:Ei; [|assumption].
+      destruct (item_val_spec d it h1 v G1 Hit V1 h2 v2 Ei) as (E2 & G2 & V2). pose proof (ext_length _ _ E2) as L2.
+      eapply step_ok_trans; [exact S1|]. split.
+      + apply good_upd; simpl; auto; try lia.
+        * apply Forall_app. split; [eapply Forall_vok_mono; eauto|constructor; auto].
+        * destruct it; simpl; constructor; auto. eapply fld_ok_mono; [|apply Hit; reflexivity]. assumption.
+      + eapply frame_trans; [apply ext_frame; eassumption|apply frame_upd; assumption].
+    - (* OpSetItem *)
+      destruct (alloc_tree t h) as [[h1 v]|] eqn:Et; [|apply step_ok_refl; assumption].
+      destruct (alloc_tree_spec t h Hg h1 v Et) as (E1 & G1 & V1).
+      assert (S1 : step_ok h h1) by (split; [assumption|apply ext_frame; assumption]).
+      destruct (nav h1 (VRef root) p) as [[pv|ll]|] eqn:En; try assumption.
+      destruct (nav_spec p h1 _ _ G1 (Hroot h1 E1) En) as [Hcl Hcc].
+      destruct (lookup h1 ll) as [o|] eqn:El; [|assumption].
+      destruct o as [it items|items|vf es|f data dynl]; try assumption.
+      destruct (i <? length items); [|assumption].
+      destruct (proj1 G1 ll _ El) as (Hvals & Hflds & _). rewrite Hcc in Hvals. simpl in Hvals, Hflds.
+      assert (Hit : forall fi, it = Some fi -> fld_ok (length h1) c fi).
+      { intros fi ->. inversion Hflds; assumption. }
+      destruct (item_val true d it h1 v) as [[h2 v2]|] eqn:Ei; [|assumption].
+      destruct (item_val_spec d it h1 v G1 Hit V1 h2 v2 Ei) as (E2 & G2 & V2). pose proof (ext_length _ _ E2) as L2.
+      eapply step_ok_trans; [exact S1|]. split.
+      + apply good_upd; simpl; auto; try lia.
+        * apply set_nth_forall; [assumption|]. eapply Forall_vok_mono; eauto.
+        * destruct it; simpl; constructor; auto. eapply fld_ok_mono; [|apply Hit; reflexivity]. assumption.
+      + eapply frame_trans; [apply ext_frame; eassumption|apply frame_upd; assumption].
+    - (* OpDictSet *)
+      destruct (alloc_tree t h) as [[h1 v]|] eqn:Et; [|apply step_ok_refl; assumption].
+      destruct (alloc_tree_spec t h Hg h1 v Et) as (E1 & G1 & V1).
+      assert (S1 : step_ok h h1) by (split; [assumption|apply ext_frame; assumption]).
+      destruct (nav h1 (VRef root) p) as [[pv|dl]|] eqn:En; try assumption.
+      destruct (nav_spec p h1 _ _ G1 (Hroot h1 E1) En) as [Hcl Hcc].
+      destruct (lookup h1 dl) as [o|] eqn:El; [|assumption].
+      destruct o as [it items|items|vf es|f data dynl]; try assumption.
+      destruct (proj1 G1 dl _ El) as (Hvals & Hflds & _). rewrite Hcc in Hvals. simpl in Hvals, Hflds.
+      assert (Hit : forall fi, vf = Some fi -> fld_ok (length h1) c fi).
+      { intros fi ->. inversion Hflds; assumption. }
+      destruct (item_val true d vf h1 v) as [[h2 v2]|] eqn:Ei; [|assumption].
+      destruct (item_val_spec d vf h1 v G1 Hit V1 h2 v2 Ei) as (E2 & G2 & V2). pose proof (ext_length _ _ E2) as L2.
+      eapply step_ok_trans; [exact S1|]. split.
+      + apply good_upd; simpl; auto; try lia.
+        * apply assoc_set_vals; [assumption|]. eapply Forall_vok_mono; eauto.
+        * destruct vf; simpl; constructor; auto. eapply fld_ok_mono; [|apply Hit; reflexivity]. assumption.
+      + eapply frame_trans; [apply ext_frame; eassumption|apply frame_upd; assumption].
   Qed.
 End Colour.
